@@ -796,7 +796,7 @@ impl Printable for Suffix {
 			}
 			Self::SuffixIndexExpr(e) => {
 				if e.question_mark_token().is_some() {
-					p!(out, str(".?") ct(t(&e.question_mark_token())) ct(t(&e.dot_token())));
+					p!(out, str("?") ct(t(&e.question_mark_token())) str(".") ct(t(&e.dot_token())));
 				}
 				p!(out, str("[") cl(n(&e.index())) {e.index()} ct(n(&e.index())) str("]"));
 			}
